@@ -57,6 +57,8 @@ def gen_ops(rng, timed, tier):
     for _ in range(9 if tier == 'quick' else 10):
         op = {'fam': 'roll', 'agg': rng.choice(ROLL), 'win': ['t', rng.choice([1, 2, 5])] if timed and rng.random() < 0.55
               else ['n', rng.choice([1, 2, 3, 5, 8])]}
+        if op['win'][0] == 'n' and rng.random() < 0.15:
+            op['win_np'] = True
         if op['win'][0] == 'n' and rng.random() < 0.3:
             # accepted but not handed on to pandas by the streaming implementation: results stay the default ones
             op['minp'] = rng.choice([1, 2, 3])
